@@ -293,6 +293,16 @@ func (s *Scheme) runDKG(ctx context.Context, membership *membership, dkgProtocol
 
 		broadcastParties := excludeUniversal(membership.universalIdentifiers, s.SelfID)
 
+		s.Logger.Debugf("Running keygen with parties %v", members)
+
+		// Initialize the protocol instance before any message can reach it,
+		// a participant may send its first message before we are done here.
+		if err := s.initializeDKG(dkgProtocolInstance, t, UIntsToUniversalIDs(members), membership); err != nil {
+			s.Logger.Errorf("Failed initializing DKG: %v", err)
+			resultChan <- mpcResult{err: err}
+			return
+		}
+
 		rbc := s.RBF(func(digest string, sender uint16, msgRound uint8) {
 			s.Logger.Debugf("Broadcasting ack with digest %s for round %d about %d", hex.EncodeToString([]byte(digest)[:8]), msgRound, sender)
 			payload := newRBCEncoding(digest, sender, msgRound)
@@ -324,14 +334,6 @@ func (s *Scheme) runDKG(ctx context.Context, membership *membership, dkgProtocol
 
 		if rbcExisted {
 			panic("Programming error: we shouldn't have gotten to a situation with two concurrent signing with the same topic")
-		}
-
-		s.Logger.Debugf("Running keygen with parties %v", members)
-
-		if err := s.initializeDKG(dkgProtocolInstance, t, UIntsToUniversalIDs(members), membership); err != nil {
-			s.Logger.Errorf("Failed initializing DKG: %v", err)
-			resultChan <- mpcResult{err: err}
-			return
 		}
 
 		// We use a synchronizer to synchronize on the hash of the parties, to ensure that all parties that participate
